@@ -185,6 +185,6 @@ Proof. vm_compute; reflexivity. Qed.
 Lemma shared_fields_api_reads : check_api_read_sync_written = true.
 Proof. vm_compute; reflexivity. Qed.
 
-(* no access is made under a mutex: all four fields are in an unprotected conflict between the roots *)
+(* the locking discipline: no field is in an unprotected conflict between the sync loop and the API *)
 Lemma shared_fields_conflicts : check_conflicting_fields = true.
 Proof. vm_compute; reflexivity. Qed.
